@@ -8,6 +8,7 @@ import (
 	"math/rand"
 	"reflect"
 	"runtime"
+	"sort"
 	"strings"
 	"sync"
 	"sync/atomic"
@@ -64,6 +65,38 @@ func concOps() []concOp {
 				}
 			}
 			return digestOf(bytes.Equal(w.buf, want), len(w.buf))
+		},
+		// maps keyed by byte strings of a few fixed lengths decoded into untyped and interface-keyed maps
+		func(r *rand.Rand) string {
+			var ts []sb.Token
+			ts = append(ts, sb.Token{Kind: sb.KindMap})
+			n := 2 + r.Intn(4)
+			keys := map[string]bool{}
+			for len(keys) < n {
+				k := payload(r, []int{4, 8, 16}[r.Intn(3)])
+				if !keys[string(k)] {
+					keys[string(k)] = true
+				}
+			}
+			var sorted [][]byte
+			for k := range keys {
+				sorted = append(sorted, []byte(k))
+			}
+			sort.Slice(sorted, func(i, j int) bool {
+				c, _ := sb.Compare(tokensFrom([]sb.Token{{Kind: sb.KindBytes, Value: sorted[i]}}), tokensFrom([]sb.Token{{Kind: sb.KindBytes, Value: sorted[j]}}))
+				return c < 0
+			})
+			for i, k := range sorted {
+				ts = append(ts, sb.Token{Kind: sb.KindBytes, Value: k}, sb.Token{Kind: sb.KindInt, Value: i})
+			}
+			ts = append(ts, sb.Token{Kind: sb.KindMapEnd})
+			var x any
+			e1 := guard(func() error { return sb.Copy(tokensFrom(ts), sb.Unmarshal(&x)) })
+			re, e2 := marshalTokens(x, nil)
+			var m map[any]int
+			e3 := guard(func() error { return sb.Copy(tokensFrom(ts), sb.Unmarshal(&m)) })
+			re2, e4 := marshalTokens(m, nil)
+			return digestOf(classOf(e1), classOf(e2), classOf(e3), classOf(e4), tokensExactEq(re, ts), tokensExactEq(re2, ts))
 		},
 		// structural hashes: ints and floats use the 8-byte scratch pool
 		func(r *rand.Rand) string {
